@@ -51,6 +51,8 @@ impl<'a, R: Read> Parser<Lexer<Scanner<'a, R>>> {
         let mut ands: Vec<And> = vec![self.parse_and()?];
 
         while self.lexer.cur == *OR_TOKEN {
+            #[cfg(feature = "verif-hooks")]
+            crate::haystack::verif_hooks::tick(crate::haystack::verif_hooks::SITE_LOOP);
             if self.lexer.is_eof() {
                 return self.make_generic_err("Expecting 'and' expression.");
             }
@@ -65,6 +67,8 @@ impl<'a, R: Read> Parser<Lexer<Scanner<'a, R>>> {
         let mut terms: Vec<Term> = vec![self.parse_term()?];
 
         while self.lexer.cur == *AND_TOKEN {
+            #[cfg(feature = "verif-hooks")]
+            crate::haystack::verif_hooks::tick(crate::haystack::verif_hooks::SITE_LOOP);
             if self.lexer.is_eof() {
                 return self.make_generic_err("Expecting 'term' expression.");
             }
